@@ -234,6 +234,8 @@ def verdicts(ck, rows, recs, out, count=True):
     for row, rec in zip(rows, recs):
         v = out[rec["run"]]
         nref += v["nref"]
+        if rec.get("void") and count:
+            ck.drift("run %d (%s) could not be staged on this code: %s" % (rec["run"], row["pattern"], str(rec["void"])[:200]))
         ok = True
         for u in v["up"]:
             if u["b"] == 0:
